@@ -240,6 +240,9 @@ def corruptions(recs):
         if f == "box1" and ne and all(y - x >= 2 for x, y in zip(r["ap"], r["am"])) and 1 in r["cp"] and 0 in r["cp"] and ksh is not None and len(r["stv"]) > 0:
             mut(r, lambda x: x["pos"].__setitem__(0, x["pos"][0] + 1), "pos-max")
             mut(r, lambda x: x["size"].__setitem__(0, x["size"][0] + 1), "size")
+            mut(r, lambda x: x["mm"].__setitem__(0, x["mm"][0] + 1), "pos-max-nonconst-read")
+            mut(r, lambda x: x["wm"].__setitem__(0, x["wm"][0] + 1), "pos-max-nonconst-write")
+            mut(r, lambda x: x["vp"].__setitem__(0, x["vp"][0] + 1), "pos-max-nonconst-write")
             mut(r, lambda x: x["imm"].__setitem__(0, x["imm"][0] + 1), "init_max")
             mut(r, lambda x: x["idp"][0].__setitem__(0, x["idp"][0][0] - 1), "init_dim")
             mut(r, lambda x: x["pdm"][0].__setitem__(0, x["pdm"][0][0] - 1), "constructor-pos-dim")
